@@ -352,6 +352,8 @@ def cex_schedule(tracep, consts):
     except (OSError, ValueError):
         return None
     steps = []
+    if isinstance(tr, dict) and "counterexample" in tr:      # TLC 1.8: {"counterexample": {"state": [[i, vars]...]}}
+        tr = tr["counterexample"]
     for st in tr.get("state", tr if isinstance(tr, list) else []):
         v = st[1] if isinstance(st, list) else st
         ln = v.get("lastLine") if isinstance(v, dict) else None
